@@ -150,7 +150,7 @@ def generate(rng, tier):
                 if tier == "thorough" or rng.random() < 0.35 or (ar == 1 and beh and t in ("nand", "nor", "xnor")):
                     out.append({"circuit": gen_circuit(rng, (t, ar)), "behavioral": beh, "via": "grid"})
     for op in ("and", "or", "xor"):
-        for _ in range(2 if tier == "quick" else 8):
+        for _ in range(3 if tier == "quick" else 8):
             out.append({"circuit": gen_invented(rng, op), "behavioral": True, "via": "invented-names"})
     for _ in range(n):
         out.append({"circuit": gen_circuit(rng), "behavioral": rng.random() < 0.5, "via": "random"})
